@@ -750,10 +750,11 @@ fn run_dynamic<D: TestDriver<Error = DrvError>>(
                             let ncalls = flush_calls(sh, &mut local);
                             let es = iteration_err_s(&e, |d: &DrvError| d.0);
                             out(&mut local, &format!("ITEM err {es}"));
-                            // the caller may go on after an error that followed the row's driver call (driver
-                            // error, unusable answer, virtual signal); not after an evaluation error of the
-                            // program itself: what the statement iterator does after one is outside the properties
-                            if !c.cont || ncalls == 0 {
+                            // with `cont` the caller goes on after every error item: driver errors, unusable answers,
+                            // failing virtual signals and evaluation errors of the program itself (the failing
+                            // statement is consumed; a failing while condition is evaluated again)
+                            let _ = ncalls;
+                            if !c.cont {
                                 out(&mut local, "END err");
                                 break;
                             }
@@ -813,8 +814,10 @@ fn run_static(c: &Case, tc: &TestCase, buf: &mut String) {
                         }
                         Some(Err(e)) => {
                             out(&mut local, &format!("ITEM err {}", runtime_err_s(&e)));
-                            out(&mut local, "END err");
-                            break;
+                            if !c.cont {
+                                out(&mut local, "END err");
+                                break;
+                            }
                         }
                         Some(Ok(row)) => {
                             // same shape as a dynamic ROW line: output column is always X
@@ -993,6 +996,23 @@ fn run_dig(c: &Case, buf: &mut String) {
                         .ok()
                         .and_then(|p| p.with_signals(file.signals.clone()).ok())
                 }));
+                // an error of load_test is a diagnostic with the test's source attached: it must be renderable
+                // (every location inside the attached source)
+                let rendered = catch_unwind(AssertUnwindSafe(|| match file.load_test(i) {
+                    Ok(_) => "none",
+                    Err(e) => {
+                        let mut text = String::new();
+                        let handler = miette::GraphicalReportHandler::new_themed(miette::GraphicalTheme::unicode_nocolor());
+                        let report = miette::Report::new(e);
+                        if handler.render_report(&mut text, report.as_ref()).is_ok() && !text.is_empty() {
+                            "ok"
+                        } else {
+                            "FAILED"
+                        }
+                    }
+                }))
+                .unwrap_or("PANIC");
+                out(buf, &format!("LOADRENDER {i} {rendered}"));
                 let loaded = catch_unwind(AssertUnwindSafe(|| file.load_test(i).ok()));
                 let by_name = catch_unwind(AssertUnwindSafe(|| file.load_test_by_name(&t.name).ok()));
                 let first_with_name = file.test_cases.iter().position(|x| x.name == t.name).unwrap();
